@@ -26,6 +26,15 @@ def promRefs : FPc → Nat
   | .walk _ d st => (if d then 2 else 3) + (if st = .incd then 1 else 0)
   | .dec n => n
 
+@[simp] theorem promRefs_start : promRefs .start = 3 := rfl
+@[simp] theorem promRefs_walk (l : List Cb) (d : Bool) (st : FSt) :
+    promRefs (.walk l d st) = (if d then 2 else 3) + (if st = .incd then 1 else 0) := rfl
+@[simp] theorem promRefs_dec (n : Nat) : promRefs (.dec n) = n := rfl
+theorem promRefs_advance (rest : List Cb) : promRefs (advance rest) = if rest = [] then 2 else 3 := by
+  unfold advance; split <;> simp
+theorem promRefs_xchg (l : List Cb) : promRefs (if l = [] then .dec 3 else .walk l false .begin) = 3 := by
+  split <;> simp
+
 /-- references owned by When-style callbacks sitting in a list -/
 def retCnt (l : List Cb) : Nat := l.countP (fun c => c.kind = .retire)
 
@@ -33,11 +42,34 @@ def retCnt (l : List Cb) : Nat := l.countP (fun c => c.kind = .retire)
 theorem retCnt_cons (c : Cb) (l : List Cb) : retCnt (c :: l) = retCnt l + (if c.kind = .retire then 1 else 0) := by
   simp [retCnt, List.countP_cons]
 
+@[simp] theorem wordList_list (l : List Cb) : wordList (.list l) = l := rfl
+@[simp] theorem wordList_result : wordList .result = [] := rfl
+@[simp] theorem walkList_walk (l : List Cb) (d : Bool) (st : FSt) : walkList (.walk l d st) = l := rfl
+@[simp] theorem walkList_start : walkList .start = [] := rfl
+@[simp] theorem walkList_dec (n : Nat) : walkList (.dec n) = [] := rfl
+@[simp] theorem advance_nil : advance [] = .dec 2 := rfl
+@[simp] theorem advance_cons (c : Cb) (rest : List Cb) : advance (c :: rest) = .walk (c :: rest) false .begin := rfl
+@[simp] theorem walkList_advance (rest : List Cb) : walkList (advance rest) = rest := by
+  unfold advance; split <;> simp_all
+@[simp] theorem walkList_xchg (l : List Cb) : walkList (if l = [] then .dec 3 else .walk l false .begin) = l := by
+  split <;> simp_all
+
 /-- the callback an observer holds in its own hands -/
 def heldCb : OPc → Option Cb
   | .att c _ => some c
   | .run c _ => some c
   | _ => none
+
+@[simp] theorem heldCb_att (c : Cb) (e : List Cb) : heldCb (.att c e) = some c := rfl
+@[simp] theorem heldCb_run (c : Cb) (st : FSt) : heldCb (.run c st) = some c := rfl
+@[simp] theorem heldCb_idle : heldCb .idle = none := rfl
+@[simp] theorem heldCb_evt (c : Cb) : heldCb (.evt c) = none := rfl
+@[simp] theorem heldCb_rep (x : Word) : heldCb (.rep x) = none := rfl
+@[simp] theorem heldCb_touching : heldCb .touching = none := rfl
+@[simp] theorem heldCb_gotRef (n : Nat) : heldCb (.gotRef n) = none := rfl
+
+theorem heldCb_some {p : OPc} {c : Cb} (h : heldCb p = some c) : (∃ e, p = .att c e) ∨ (∃ st, p = .run c st) := by
+  cases p <;> simp [heldCb] at h <;> subst h <;> simp
 
 /-- Σ refs over the first n observers -/
 def holdSum (f : Nat → Obs) : Nat → Nat
@@ -103,6 +135,12 @@ theorem count_erase_self' {l : List Cb} {c : Cb} (h : c ∈ l) : (l.erase c).cou
   have : 0 < l.count c := List.count_pos_iff.mpr h
   simp [List.count_erase_self]; omega
 
+theorem readyNext_pos {o : Obs} {x : Word} (h : x ≠ .list [] ∧ o.todo.head? = some .readyTouch) :
+    readyNext o x = { o with pc := .touching } := by simp only [readyNext, if_pos h]
+
+theorem readyNext_neg {o : Obs} {x : Word} (h : ¬ (x ≠ .list [] ∧ o.todo.head? = some .readyTouch)) :
+    readyNext o x = nextOp o := by simp only [readyNext, if_neg h]
+
 theorem staleOk_self (l : List Cb) : staleOk l l := by simp [staleOk]
 
 /-! ### the invariants -/
@@ -128,6 +166,11 @@ theorem Inv0.two {s : State} (h : Inv0 s) {t t' : Nat} (hne : t ≠ t') : (s.obs
     · rw [h.sum]; exact refs_two_le_holdSum _ _ _ _ (h.lt hp) (h.lt hp') hne
     · have := h.le t; omega
   · have := h.le t'; omega
+
+theorem Inv0.two' {s : State} (h : Inv0 s) (t t' : Nat) : t = t' ∨ (s.obs t).refs + (s.obs t').refs ≤ s.holders := by
+  by_cases hne : t = t'
+  · exact Or.inl hne
+  · exact Or.inr (h.two hne)
 
 /-- the step changed (at most) observer t, which owned a reference -/
 theorem inv0_of {s s' : State} (h : Inv0 s) (t : Nat) (hn : s'.n = s.n) (hpos : 0 < (s.obs t).refs)
@@ -196,5 +239,36 @@ structure InvA (w : Workload) (s : State) : Prop where
 
 theorem invA_init (w : Workload) : InvA w (init w) := by
   constructor <;> simp [init]
+
+/-- unfold the step effects, but keep `advance`, `wordList`, `walkList`, `heldCb`, `promRefs` folded -/
+macro "sh_unfold'" : tactic =>
+  `(tactic| simp only [doXchg, doFFire, doFForward, doFRetire, failPath, reload, doLoad, doCasOk, doOInvoke,
+      doOIncRef, doOSubmit, doORetire, doGetc, doGot, doReady, doTouch, doCopy, doDrop, doJInvoke, doJDec, decCount, nextOp,
+      canFire, upd_apply, firedIds, loadOk, wordList_list, wordList_result, walkList_walk, walkList_start, walkList_dec,
+      advance_nil, advance_cons, walkList_advance, walkList_xchg, promRefs_advance, promRefs_xchg, promRefs_start, promRefs_walk, promRefs_dec, heldCb_att, heldCb_run, heldCb_idle, heldCb_evt, heldCb_rep, heldCb_touching, heldCb_gotRef,
+      List.map_append, List.map_cons, List.map_nil,
+      ↓reduceIte, reduceCtorEq, ite_true, ite_false, if_true, if_false] at *)
+
+/-- unfold the step effects -/
+macro "sh_unfold" : tactic =>
+  `(tactic| simp only [doXchg, doFFire, doFForward, doFRetire, failPath, reload, doLoad, doCasOk, doOInvoke,
+      doOIncRef, doOSubmit, doORetire, doGetc, doGot, doReady, doTouch, doCopy, doDrop, doJInvoke, doJDec, decCount, nextOp,
+      advance, canFire, upd_apply, firedIds, loadOk,
+      ↓reduceIte, reduceCtorEq, ite_true, ite_false, if_true, if_false] at *)
+
+macro "invA_auto" : tactic => `(tactic| (constructor <;> sh_unfold <;> grind))
+
+/-- splits the preservation proofs over several files (by label) so that they compile in parallel -/
+def grpOf : Label → Nat
+  | .fXchg _ => 0 | .fDec _ => 0 | .fInvoke .. => 0 | .fSet _ => 0 | .fIncRef _ => 0 | .fSubmit _ => 0
+  | .fRefLoad _ => 1 | .fForward .. => 1 | .fRetire .. => 1 | .jInvoke .. => 1 | .jDec .. => 1
+  | .oLoad .. => 2 | .oCasOk _ => 2
+  | .oCasFail .. => 3 | .oCasSpur .. => 3 | .oInvoke .. => 3 | .oIncRef .. => 3 | .oSubmit .. => 3
+  | .oForward .. => 4 | .oRefLoad .. => 4 | .oRetire .. => 4 | .oWaited _ => 4 | .oGetc .. => 4 | .oGetRef .. => 4
+  | .oGot .. => 4
+  | .oRdLoad .. => 5 | .oReady .. => 5 | .oTouch .. => 5 | .oCopy .. => 5 | .oDrop .. => 5
+
+theorem grpOf_lt (l : Label) : grpOf l = 0 ∨ grpOf l = 1 ∨ grpOf l = 2 ∨ grpOf l = 3 ∨ grpOf l = 4 ∨ grpOf l = 5 := by
+  cases l <;> simp [grpOf]
 
 end Yaclib.Shared
